@@ -88,7 +88,7 @@ fn twin(rep: &mut Report, p: &Params, relation: &str, ops_a: &[Op], ops_b: &[Op]
 }
 
 pub fn run(ctx: &Ctx) -> Report {
-    let njobs = ctx.pick(640, 6400);
+    let njobs = ctx.pick(3200, 64000);
     let seed = ctx.seed;
     let maxlen = ctx.pick(1500usize, 6000usize);
     let jobs: Vec<usize> = (0..njobs).collect();
